@@ -197,6 +197,10 @@ def ref_formula(zs):
     return "".join(ELEMENTS[z - 1][0] + (str(cnt[z]) if cnt[z] > 1 else "") for z in order)
 
 
+def brief(lst):
+    return str(lst) if len(lst) <= 12 else "[%s, ... %d atoms]" % (", ".join(repr(x) for x in lst[:6]), len(lst))
+
+
 def check_formulas(part, chunks):
     from chmpy.core.element import Element, chemical_formula
 
@@ -211,7 +215,7 @@ def check_formulas(part, chunks):
             continue
         want = ref_formula(zs)
         if got != want:
-            part.fail("formula:%d" % len(zs), "chemical_formula(%s) = %r, expected %r" % ([ELEMENTS[z - 1][0] for z in zs], got, want), {"kind": "formula", "zs": list(zs)})
+            part.fail("formula:%d" % len(zs), "chemical_formula(%s) = %r, expected %r" % (brief([ELEMENTS[z - 1][0] for z in zs]), got, want), {"kind": "formula", "zs": list(zs)})
         # the subscript variant and a list of symbol strings count every atom once as well
         try:
             sub = chemical_formula(els, subscript=True)
@@ -225,7 +229,7 @@ def check_formulas(part, chunks):
                 cnt[sy] = cnt.get(sy, 0) + 1
             wants = "".join(k + (str(cnt[k]) if cnt[k] > 1 else "") for k in sorted(cnt))
             if fs != wants:
-                part.fail("formula-strings:%d" % len(zs), "chemical_formula(%s) = %r, expected %r (every symbol counted once)" % (syms, fs, wants), {"kind": "formula", "zs": list(zs)})
+                part.fail("formula-strings:%d" % len(zs), "chemical_formula(%s) = %r, expected %r (every symbol counted once)" % (brief(syms), fs, wants), {"kind": "formula", "zs": list(zs)})
         except Exception as ex:
             part.fail("formula-variant-raise", "chemical_formula variant raised %r for %s" % (ex, zs), {"kind": "formula", "zs": list(zs)})
         # the atoms in every container an iterable of elements comes in: tuple, object array, a generator, an iterator, a map - and a
@@ -241,7 +245,7 @@ def check_formulas(part, chunks):
                 part.tr()
                 gotf = chemical_formula(container)
                 if gotf != want:
-                    part.fail("formula-container:%s" % fname, "chemical_formula of the atoms %s given as a %s = %r, expected %r" % ([ELEMENTS[z - 1][0] for z in zs], fname, gotf, want),
+                    part.fail("formula-container:%s" % fname, "chemical_formula of the atoms %s given as a %s = %r, expected %r" % (brief([ELEMENTS[z - 1][0] for z in zs]), fname, gotf, want),
                               {"kind": "formula", "zs": list(zs)})
         except Exception as ex:
             part.fail("formula-container-raise", "chemical_formula of a container raised %r for %s" % (ex, zs), {"kind": "formula", "zs": list(zs)})
@@ -357,6 +361,11 @@ def run(ctx):
         forms.append([6] * cnt + [1])
         forms.append([26] * cnt)
     forms.append([((i * 7) % 103) + 1 for i in range(40)])
+    # realistic sizes: unit-cell and cluster contents run to hundreds and thousands of atoms of one element (counts round 2^8, 2^15, 2^16)
+    for cnt in (255, 256, 257, 432, 1000, 32767, 32768, 65535, 65536, 70000):
+        forms.append([14] * (cnt // 2) + [8] * cnt)
+        forms.append([6] * cnt)
+    forms.append([8] * 432 + [14] * 216)
     jobs += [("formulas", c) for c in chunked(forms, 200)]
     nroutes = len(routes_for(1))
     ctx.rule = ("Z=1..103 x %d lookup routes (int/numpy ints/decimal strings/symbol in 3 cases/name in 3 cases/labels with %d digit strings x %d suffixes/"
